@@ -31,28 +31,28 @@ is not one that only *other* logical files have put objects into (that is the sh
 C18 shows is rejected at write anyway). -/
 theorem records_unchanged_item (w : World) (lf kind : Nat) (sn : Option PStr) (name : PStr) (oref : Option Int)
     (out : Outcome) (hout : out ≠ .ok) (hlf : lf < w.keys.length)
-    (hlocal : (kind, sn) ∉ lfKeys w lf → itemsOfKey w (kind, sn) = []) (l : Nat) :
+    (hlocal : (kind, normName sn) ∉ lfKeys w lf → itemsOfKey w (kind, normName sn) = []) (l : Nat) :
     setRecords (step w (.item lf kind sn name oref out)) l = setRecords w l := by
   simp only [step]
   split
   · rfl
-  · have : addItem w lf kind sn name oref out = touchKey w lf (kind, sn) := by
+  · have : addItem w lf kind (normName sn) name oref out = touchKey w lf (kind, normName sn) := by
       unfold addItem; cases out <;> simp_all
     rw [this]
-    exact setRecords_touch_empty w l lf (kind, sn) hlf hlocal
+    exact setRecords_touch_empty w l lf (kind, normName sn) hlf hlocal
 
 theorem records_unchanged_origin (w : World) (lf : Nat) (sn : Option PStr) (name : PStr) (oref : Option Int)
     (out : Outcome) (hout : out ≠ .ok) (hlf : lf < w.keys.length)
-    (hlocal : (0, sn) ∉ lfKeys w lf → itemsOfKey w (0, sn) = []) (l : Nat) :
+    (hlocal : (0, normName sn) ∉ lfKeys w lf → itemsOfKey w (0, normName sn) = []) (l : Nat) :
     setRecords (step w (.origin lf sn name oref out)) l = setRecords w l := by
-  have : (addOrigin w lf sn name oref out).1 = touchKey w lf (0, sn) := by
+  have : (addOrigin w lf (normName sn) name oref out).1 = touchKey w lf (0, normName sn) := by
     unfold addOrigin
     simp only
     split
     · rfl
     · cases out <;> simp_all
   simp only [step, this]
-  exact setRecords_touch_empty w l lf (0, sn) hlf hlocal
+  exact setRecords_touch_empty w l lf (0, normName sn) hlf hlocal
 
 /-- all steps: any number of rejected calls, anywhere in the history, before or after the objects they could have
 disturbed -/
